@@ -44,6 +44,37 @@ RealMwApi = sapi.MwApi
 CURRENT = {}
 
 
+KINDS = ["siteinfo", "parse", "expandtemplates", "imageinfo", "contributors", "categories", "revisions", "images", "query", "download"]
+
+
+def kind_of_request(params):
+    action = params.get("action")
+    if action != "query":
+        return action if action in KINDS else "query"
+    if params.get("meta") == "siteinfo":
+        return "siteinfo"
+    prop = params.get("prop") or ""
+    for k in ("imageinfo", "contributors", "categories", "revisions", "images"):
+        if prop.startswith(k):
+            return k
+    return "query"
+
+
+def wait(lat):
+    """lat: None = answer without giving up control; float = seconds of real time (gevent.sleep);
+    ("y", k) = k cooperative yields (gevent.sleep(0)): VIRTUAL latency, a request that yields k times is
+    answered k rounds of the hub loop later - the interleaving is a function of the case's seed only, so a
+    failing schedule replays exactly."""
+    if lat is None:
+        return None
+    if isinstance(lat, tuple):
+        for _ in range(lat[1]):
+            gevent.sleep(0)
+        return "y%d" % lat[1]
+    gevent.sleep(lat)
+    return lat
+
+
 class SynthApi(RealMwApi):
     """The real client; only the HTTP exchange is replaced."""
 
@@ -57,10 +88,7 @@ class SynthApi(RealMwApi):
         ctx["inflight"] += 1
         ctx["max_inflight"] = max(ctx["max_inflight"], ctx["inflight"])
         try:
-            lat = ctx["latency"]()
-            ent["lat"] = lat
-            if lat is not None:
-                gevent.sleep(lat)
+            ent["lat"] = wait(ctx["latency"](kind_of_request(params)))
             if not url.startswith(wiki.apiurl):
                 raise RuntimeError("request to unknown host: %s" % url)
             res = wiki.handle(params)
@@ -100,9 +128,7 @@ class MemClient:
     def stream(self, method, url):
         ctx = CURRENT
         ctx["downloads"].append(url)
-        lat = ctx["latency"]()
-        if lat is not None:
-            gevent.sleep(lat)
+        wait(ctx["latency"]("download"))
         return _Resp(url, ctx["wiki"].download(url))
 
 
@@ -141,11 +167,29 @@ def run_case(case, base_tmp):
     wiki = c11_wiki.SynthWiki(case["wiki"], SITEINFO, BASE)
     mode = opts.get("latency", "random")
 
-    def latency():
+    # "bykind": every kind of request has its own typical delay in this case (a slow siteinfo, fast imageinfo, ...)
+    base = {k: rng.choice([0, 0, 1, 2, 4, 9, 20, 45]) for k in KINDS}
+
+    def latency(kind=None):
+        if mode == "bykind":
+            return ("y", base.get(kind, 0) + rng.choice([0, 0, 0, 1, 2]))
         if mode == "none":
             return None
         if mode == "zero":
             return 0
+        if mode == "yields":
+            r = rng.random()
+            if r < 0.25:
+                return ("y", 0)
+            if r < 0.7:
+                return ("y", rng.randint(1, 4))
+            if r < 0.93:
+                return ("y", rng.randint(5, 25))
+            return ("y", rng.randint(26, 90))
+        if isinstance(mode, list):
+            # explicit schedule: the i-th request/download yields mode[i] times (0 beyond the end)
+            i = CURRENT["nlat"] = CURRENT.get("nlat", -1) + 1
+            return ("y", mode[i] if i < len(mode) else 0)
         r = rng.random()
         if r < 0.3:
             return 0
@@ -153,8 +197,15 @@ def run_case(case, base_tmp):
             return rng.random() * 0.002
         return 0.002 + rng.random() * 0.006
 
+    lat_log = []
+
+    def logged_latency(kind=None):
+        lat = latency(kind)
+        lat_log.append(lat[1] if isinstance(lat, tuple) else lat)
+        return lat
+
     CURRENT.clear()
-    CURRENT.update(wiki=wiki, requests=[], downloads=[], latency=latency, tick=0, inflight=0, max_inflight=0,
+    CURRENT.update(wiki=wiki, requests=[], downloads=[], latency=logged_latency, tick=0, inflight=0, max_inflight=0,
                    keep_responses=opts.get("keep_responses", False))
     set_conf("fetch", "api_request_limit", opts.get("req_limit", 15))
     set_conf("fetch", "api_result_limit", opts.get("res_limit", 500))
@@ -211,6 +262,7 @@ def run_case(case, base_tmp):
     res["requests"] = CURRENT["requests"]
     res["downloads"] = CURRENT["downloads"]
     res["max_inflight"] = CURRENT["max_inflight"]
+    res["lat_log"] = lat_log
     # ------------------------------------------------------------ read the archive back
     try:
         res.update(read_back(fsdir, case, wiki))
